@@ -398,6 +398,7 @@ class Normalizer:
         self._constants()
         self._local_constants()
         self._beta_reduce()
+        self._attr_builtins()
         self._drop_folded()
 
     def _drop_folded(self):
@@ -508,6 +509,11 @@ class Normalizer:
                     call = st.value
                 elif isinstance(st, ast.Assign) and len(st.targets) == 1 and isinstance(st.targets[0], ast.Name) and isinstance(st.value, ast.Call):
                     call, result = st.value, st.targets[0].id
+                elif isinstance(st, ast.Assign) and len(st.targets) == 1 and isinstance(st.targets[0], ast.Tuple) and isinstance(st.value, ast.Call) \
+                        and all(isinstance(e, ast.Name) for e in st.targets[0].elts):
+                    # `a, b = helper(..)`: spliced with a placeholder result, every `placeholder = <returned tuple>` then becomes
+                    # `a, b = <returned tuple>`
+                    call, result = st.value, f"__tup{self.counter + 1}"
                 elif isinstance(st, ast.Return) and isinstance(st.value, ast.Call):
                     # `return helper(..)`: spliced as `__ret = <helper body>; return __ret`
                     call, result, tail_return = st.value, None, True
@@ -517,6 +523,17 @@ class Normalizer:
                         fd, recv = r
                         sub = self._bind(call, fd, recv)
                         blk = self.block_of(fd, sub, result, st, tail=tail_return) if sub is not None else None
+                        if blk is not None and isinstance(st, ast.Assign) and isinstance(st.targets[0], ast.Tuple):
+                            ok_t = True
+                            for b_ in blk:
+                                for n_ in ast.walk(b_):
+                                    if isinstance(n_, ast.Assign) and len(n_.targets) == 1 and isinstance(n_.targets[0], ast.Name) and n_.targets[0].id == result:
+                                        if isinstance(n_.value, ast.Tuple) and len(n_.value.elts) == len(st.targets[0].elts):
+                                            n_.targets = [copy.deepcopy(st.targets[0])]
+                                        else:
+                                            ok_t = False
+                            if not ok_t:
+                                blk = None
                         if blk is not None:
                             out.extend(blk)
                             changed = True
@@ -552,6 +569,37 @@ class Normalizer:
                         ast.copy_location(x, c)
                     me.log.append("beta-reduced an immediately applied lambda")
                     return new
+                return c
+        for tree in self.trees.values():
+            T().visit(tree)
+
+    def _attr_builtins(self):
+        """`setattr(X, 'name', V)` as an expression statement -> `X.name = V`; two-argument `getattr(X, 'name')` -> `X.name`
+        (only for string constants that are identifiers; such literal names are not mangled by Python, and dunder-private
+        names are left alone so that the later mangling pass cannot change their meaning)"""
+        def plain(c):
+            return isinstance(c, ast.Constant) and isinstance(c.value, str) and c.value.isidentifier() and \
+                not (c.value.startswith('__') and not c.value.endswith('__'))
+
+        class T(ast.NodeTransformer):
+            def visit_Expr(self_, n):
+                self_.generic_visit(n)
+                c = n.value
+                if isinstance(c, ast.Call) and isinstance(c.func, ast.Name) and c.func.id == 'setattr' and len(c.args) == 3 and \
+                        not c.keywords and plain(c.args[1]):
+                    tgt = ast.Attribute(value=c.args[0], attr=c.args[1].value, ctx=ast.Store())
+                    new = ast.Assign(targets=[tgt], value=c.args[2])
+                    ast.copy_location(new, n)
+                    ast.copy_location(tgt, c)
+                    ast.fix_missing_locations(new)
+                    return new
+                return n
+
+            def visit_Call(self_, c):
+                self_.generic_visit(c)
+                if isinstance(c.func, ast.Name) and c.func.id == 'getattr' and len(c.args) == 2 and not c.keywords and plain(c.args[1]):
+                    new = ast.Attribute(value=c.args[0], attr=c.args[1].value, ctx=ast.Load())
+                    return ast.copy_location(new, c)
                 return c
         for tree in self.trees.values():
             T().visit(tree)
